@@ -130,15 +130,24 @@ type compiled struct {
 	err error
 }
 
-var exprCache sync.Map
+// A compiled Grammar holds its whole BSR forest (tens of KiB), so the cache is
+// bounded: it is dropped wholesale when it reaches exprCacheMax entries.
+const exprCacheMax = 4096
 
-// Build compiles with a process-wide cache (BuildExpr costs 0.3–2 ms).
+var (
+	exprCacheMu sync.Mutex
+	exprCache   = map[string]*compiled{}
+)
+
+// Build compiles with a bounded process-wide cache (BuildExpr costs 0.3–2 ms).
 func Build(s string) (*xsel.Grammar, error) {
-	if c, ok := exprCache.Load(s); ok {
-		cc := c.(*compiled)
+	exprCacheMu.Lock()
+	cc, ok := exprCache[s]
+	exprCacheMu.Unlock()
+	if ok {
 		return &cc.g, cc.err
 	}
-	cc := &compiled{}
+	cc = &compiled{}
 	func() {
 		defer func() {
 			if p := recover(); p != nil {
@@ -147,7 +156,12 @@ func Build(s string) (*xsel.Grammar, error) {
 		}()
 		cc.g, cc.err = xsel.BuildExpr(s)
 	}()
-	exprCache.Store(s, cc)
+	exprCacheMu.Lock()
+	if len(exprCache) >= exprCacheMax {
+		exprCache = map[string]*compiled{}
+	}
+	exprCache[s] = cc
+	exprCacheMu.Unlock()
 	return &cc.g, cc.err
 }
 
